@@ -51,11 +51,16 @@ func runC17(c *Ctx, r *Rec) {
 			}
 		}
 	}
-	if valuesF == nil || sizeF == nil || slotF == nil {
-		r.undecided("bind", "agent."+it.Obj().Name(), "", fmt.Sprintf("cannot bind snapshot/size/slot fields by role (values=%v size=%v slot=%v)", valuesF, sizeF, slotF))
+	if valuesF == nil || slotF == nil {
+		r.skip("bind", "agent."+it.Obj().Name(), "", fmt.Sprintf("cannot bind the snapshot and slot fields by role (values=%v slot=%v): the cursor rules are bound to the array-and-slot design", valuesF, slotF))
 		return
 	}
-	slot, size := sym(objKey(slotF)), sym(objKey(sizeF))
+	// the size: a frozen int field, or the length of the snapshot itself
+	sizeName := "len(snapshot)"
+	if sizeF != nil {
+		sizeName = objKey(sizeF)
+	}
+	slot, size := sym(objKey(slotF)), sym(sizeName)
 	inv := and(ge(slot, k(0)), le(slot, size))
 	base := Cube{}
 	for _, cb := range dnf(inv) {
@@ -129,13 +134,24 @@ func runC17(c *Ctx, r *Rec) {
 			continue
 		}
 		env := &symEnv{info: info, base: base}
+		env.resolve = func(e ast.Expr) (Val, bool) {
+			if call, ok := e.(*ast.CallExpr); ok && isBuiltinCall(info, call, "len") && len(call.Args) == 1 && selectorField(info, call.Args[0]) == valuesF {
+				return Val{Lin: size}, true // the snapshot is frozen: its length is the size
+			}
+			return Val{}, false
+		}
 		// sibling methods called on the receiver (HasNext, HasPrevious, private helpers) are interpreted in place
 		env.recvs = map[types.Object]bool{}
 		if ro := recvObj(info, fd); ro != nil {
 			env.recvs[ro] = true
 		}
 		self := fd
+		enableInlining(c, env, fd, nil) // private functions and methods
+		generic := env.inlinable
 		env.inlinable = func(call *ast.CallExpr) *ast.FuncDecl {
+			if d := generic(call); d != nil {
+				return d
+			}
 			rx, mname, _, ok := methodCall(call)
 			if !ok {
 				return nil
@@ -234,6 +250,9 @@ func runC17(c *Ctx, r *Rec) {
 	checkReceiverWrites(c, r, "D1-receiver-writes-persist", it)
 	// ---- D2 frozen fields
 	for _, f := range []*types.Var{valuesF, sizeF} {
+		if f == nil {
+			continue
+		}
 		construct := "agent." + it.Obj().Name() + "." + f.Name()
 		r.check(!written[f], "D2-frozen", construct, c.pos(f.Pos()), "never written after construction", "the field is written by a method: the snapshot is not immutable")
 	}
@@ -241,7 +260,7 @@ func runC17(c *Ctx, r *Rec) {
 	stores := elementStores(c, info, it, valuesF)
 	r.check(len(stores) == 0, "D2-frozen", "agent."+it.Obj().Name()+"/element-stores", c.pos(it.Obj().Pos()),
 		"no method stores into the snapshot array", "a method stores into the snapshot array at "+strings.Join(stores, ", "))
-	r.floor("D2-frozen", 3)
+	r.floor("D2-frozen", 2)
 
 	checkIteratorSnapshots(c, r)
 	checkIteratorNotShared(c, r, it)
